@@ -25,9 +25,15 @@ class TSPAdapter(TourAdapter):
     tiny = 5
 
     def variants(self, tier):
-        return [{"num_loc": n} for n in ([1, 2, 3, 5, 8] if tier == "quick" else [1, 2, 3, 4, 6, 10, 20])]
+        # DenseRewardTSPEnv duplicates TSPEnv._step (same bookkeeping, plus a stepwise reward that is not part of
+        # these properties); it is tied to the same model as a variant
+        dense = [{"num_loc": n, "dense": True} for n in ([4] if tier == "quick" else [3, 7])]
+        return [{"num_loc": n} for n in ([1, 2, 3, 5, 8] if tier == "quick" else [1, 2, 3, 4, 6, 10, 20])] + dense
 
     def make_env(self, variant):
+        if variant.get("dense"):
+            from rl4co.envs.routing.tsp.env import DenseRewardTSPEnv
+            return DenseRewardTSPEnv(generator_params={"num_loc": variant["num_loc"]})
         from rl4co.envs import TSPEnv
         return TSPEnv(generator_params={"num_loc": variant["num_loc"]}, check_solution=False)
 
@@ -58,7 +64,7 @@ class TSPAdapter(TourAdapter):
         return get_distance(locs[:, None, :], locs[None, :, :])
 
     def coq_instance(self, env, td_reset, variant):
-        return "(mk_tsp %s %s)" % (envh.zmatrix(self.dist_matrix(td_reset)), self.obs_term(td_reset))
+        return "(mk_tsp %s %s)" % (self.matrix_term(self.dist_matrix(td_reset)), self.obs_term(td_reset))
 
     def reward_tol(self, env, td_reset, n_steps):
         if self.is_exact(td_reset):
